@@ -26,6 +26,11 @@ func c15Families(c *vk.Ctx) []c15Family {
 		c15FamScopes(c),
 		c15FamPipes(c),
 		c15FamValues(c),
+		c15FamAssign(c),
+		c15FamArith(c),
+		c15FamRange(c),
+		c15FamClosures(c),
+		c15FamOrder(c),
 	}
 }
 
@@ -650,4 +655,302 @@ func c15Group(x c15Expr) c15Expr {
 		return &c15Braced{[]c15Expr{x}}
 	}
 	return x
+}
+
+// ---- family 7: assignment shapes (var / set with rest and element lvalues) ----
+
+func c15FamAssign(c *vk.Ctx) c15Family {
+	type lhs struct {
+		name string
+		lvs  []c15LValue
+	}
+	lv := func(n string) c15LValue { return c15LValue{Name: n} }
+	rest := func(n string) c15LValue { return c15LValue{Name: n, Rest: true} }
+	elem := func(n string, idx ...string) c15LValue { return c15LValue{Name: n, Idx: c15Strs(idx...)} }
+	varLHS := []lhs{
+		{"x", []c15LValue{lv("x")}}, {"x-y", []c15LValue{lv("x"), lv("y")}}, {"@x", []c15LValue{rest("x")}},
+		{"x-@y", []c15LValue{lv("x"), rest("y")}}, {"@x-y", []c15LValue{rest("x"), lv("y")}},
+		{"x-@y-z", []c15LValue{lv("x"), rest("y"), lv("z")}}, {"x-y-z", []c15LValue{lv("x"), lv("y"), lv("z")}},
+	}
+	setLHS := append(append([]lhs{}, varLHS...),
+		lhs{"l[0]", []c15LValue{elem("l", "0")}}, lhs{"l[-1]", []c15LValue{elem("l", "-1")}}, lhs{"l[2]", []c15LValue{elem("l", "2")}},
+		lhs{"l[1][0]", []c15LValue{elem("l", "1", "0")}}, lhs{"l[1][5]", []c15LValue{elem("l", "1", "5")}},
+		lhs{"m[k]", []c15LValue{elem("m", "k")}}, lhs{"m[new]", []c15LValue{elem("m", "new")}}, lhs{"m[in][k2]", []c15LValue{elem("m", "in", "k2")}},
+		lhs{"m[no][k]", []c15LValue{elem("m", "no", "k")}}, lhs{"x[0]", []c15LValue{elem("x", "0")}}, lhs{"l[k]", []c15LValue{elem("l", "k")}},
+		lhs{"l[0][0]", []c15LValue{elem("l", "0", "0")}},
+	)
+	type rhs struct {
+		name string
+		es   []c15Expr
+	}
+	var rhss []rhs
+	for n := 0; n <= vk.Pick(c, 4, 5); n++ {
+		rhss = append(rhss, rhs{fmt.Sprint(n), c15Strs("1", "2", "3", "4", "5")[:n]})
+	}
+	rhss = append(rhss,
+		rhs{"braced", []c15Expr{&c15Braced{c15Strs("1", "2")}}},
+		rhs{"explode", []c15Expr{&c15Var{Name: "src", Explode: true}}},
+		rhs{"capture", []c15Expr{&c15Cap{c15Stmts(c15Put("1", "2", "3"))}}},
+		rhs{"list", []c15Expr{&c15List{c15Strs("1", "2")}}},
+		rhs{"fail", []c15Expr{&c15Cap{c15Stmts(c15C("fail", c15S("r")))}}},
+	)
+	contexts := []string{"top", "try", "lambda"}
+	nVar, nSet := len(varLHS)*len(rhss), len(setLHS)*len(rhss)
+	return c15Family{Name: "assign", N: (nVar + nSet) * len(contexts), Build: func(i int) (*c15Chunk, string) {
+		ctx := contexts[i%len(contexts)]
+		i /= len(contexts)
+		kind, l, r := "var", lhs{}, rhs{}
+		if i < nVar {
+			l, r = varLHS[i/len(rhss)], rhss[i%len(rhss)]
+		} else {
+			i -= nVar
+			kind, l, r = "set", setLHS[i/len(rhss)], rhss[i%len(rhss)]
+		}
+		decl := func(n string, e c15Expr) c15Form {
+			return &c15Assign{Kind: "var", LHS: []c15LValue{{Name: n}}, HasEq: true, RHS: []c15Expr{e}}
+		}
+		pre := []c15Form{decl("src", &c15List{c15Strs("7", "8")})}
+		if kind == "set" {
+			pre = append(pre, decl("x", c15S("ox")), decl("y", c15S("oy")), decl("z", c15S("oz")),
+				decl("l", &c15List{[]c15Expr{c15S("a"), &c15List{c15Strs("b", "c")}}}),
+				decl("m", &c15Map{c15Strs("k", "in"), []c15Expr{c15S("v"), &c15Map{c15Strs("k2"), c15Strs("v2")}}}))
+		}
+		a := &c15Assign{Kind: kind, LHS: l.lvs, HasEq: true, RHS: r.es}
+		var show []c15Expr
+		seen := map[string]bool{}
+		for _, v := range l.lvs {
+			if !seen[v.Name] {
+				show = append(show, c15V(v.Name))
+				seen[v.Name] = true
+			}
+		}
+		put := c15C("put", show...)
+		var prog []c15Form
+		switch ctx {
+		case "top":
+			prog = append(pre, a, put)
+		case "try":
+			if kind == "var" {
+				prog = append(pre, &c15Try{Body: c15Stmts(a, put), CatchVar: "e", Catch: c15Stmts(c15C("put", c15V("e")))})
+			} else {
+				prog = append(pre, &c15Try{Body: c15Stmts(a), CatchVar: "e", Catch: c15Stmts(c15C("put", c15V("e")))}, put)
+			}
+		default:
+			if kind == "var" {
+				prog = append(pre, &c15Cmd{HeadExpr: c15Lam(c15Stmts(a, put))})
+			} else {
+				prog = append(pre, &c15Cmd{HeadExpr: c15Lam(c15Stmts(a))}, put)
+			}
+		}
+		return c15Stmts(prog...), kind + "/" + l.name + "/" + r.name + "/" + ctx
+	}}
+}
+
+// ---- family 8: arithmetic and numeric comparison with up to three operands ----
+
+func c15FamArith(c *vk.Ctx) c15Family {
+	pool := []string{"0", "1", "-3", "1/2", "0.5", "2.0", "0.0", "+Inf", "x", "-1/3", "10000000000000000000", "1e1", "NaN", "-0.0"}
+	pool = pool[:vk.Pick(c, 11, 14)]
+	ops := []string{"+", "-", "*", "/", "%", "==", "!=", "<", "<=", ">", ">="}
+	np := len(pool)
+	n := 1 + np + np*np + np*np*np
+	return c15Family{Name: "arith", N: n * len(ops) * 2, Build: func(i int) (*c15Chunk, string) {
+		typed := i%2 == 1
+		i /= 2
+		op := ops[i%len(ops)]
+		i /= len(ops)
+		var idx []int
+		switch {
+		case i == 0:
+		case i < 1+np:
+			idx = []int{i - 1}
+		case i < 1+np+np*np:
+			i -= 1 + np
+			idx = []int{i / np, i % np}
+		default:
+			i -= 1 + np + np*np
+			idx = []int{i / (np * np), i / np % np, i % np}
+		}
+		var args []c15Expr
+		shape := op
+		for _, k := range idx {
+			var e c15Expr = c15S(pool[k])
+			if typed && pool[k] != "x" {
+				e = &c15Cap{c15Stmts(c15C("num", e))}
+			}
+			args = append(args, e)
+			if len(idx) < 3 {
+				shape += " " + pool[k]
+			}
+		}
+		if len(idx) == 3 {
+			shape += " 3:" + pool[idx[0]]
+		}
+		if typed {
+			shape += " typed"
+		}
+		return c15Stmts(c15C(op, args...), c15Put("e")), shape
+	}}
+}
+
+// ---- family 9: range ----
+
+func c15FamRange(c *vk.Ctx) c15Family {
+	pool := []string{"0", "1", "3", "-2", "1/2", "5/2", "x", "-1"}
+	steps := []string{"", "1", "2", "-1", "1/2", "-3/2", "x"}
+	np := len(pool)
+	return c15Family{Name: "range", N: (np + np*np) * len(steps) * 3, Build: func(i int) (*c15Chunk, string) {
+		cons := i % 3
+		i /= 3
+		st := steps[i%len(steps)]
+		i /= len(steps)
+		var args []c15Expr
+		shape := "range"
+		if i < np {
+			args = c15Strs(pool[i])
+			shape += " " + pool[i]
+		} else {
+			i -= np
+			args = c15Strs(pool[i/np], pool[i%np])
+			shape += " " + pool[i/np] + " " + pool[i%np]
+		}
+		cmd := &c15Cmd{Head: "range", Args: args}
+		if st != "" {
+			cmd.OptNames, cmd.OptVals = []string{"step"}, c15Strs(st)
+			shape += " &step=" + st
+		}
+		var f c15Form = cmd
+		switch cons {
+		case 1:
+			f = c15P(cmd, c15C("count"))
+			shape += "|count"
+		case 2:
+			f = c15P(cmd, c15C("take", c15S("2")))
+			shape += "|take"
+		}
+		return c15Stmts(f, c15Put("e")), shape
+	}}
+}
+
+// ---- family 10: closures that share and own variables ----
+
+func c15FamClosures(c *vk.Ctx) c15Family {
+	maxLen := vk.Pick(c, 5, 6)
+	asg := func(kind string, names []string, rhs ...c15Expr) c15Form {
+		a := &c15Assign{Kind: kind, HasEq: true, RHS: rhs}
+		for _, n := range names {
+			a.LHS = append(a.LHS, c15LValue{Name: n})
+		}
+		return a
+	}
+	inc := asg("set", []string{"n"}, &c15Cap{c15Stmts(c15C("+", c15V("n"), c15S("1")))})
+	// fn mk { var n = 0; put { put $n } { set n = (+ $n 1) } }
+	mk := &c15Fn{Name: "mk", L: c15Lam(c15Stmts(
+		asg("var", []string{"n"}, c15S("0")),
+		c15C("put", c15Lam(c15Stmts(c15C("put", c15V("n")))), c15Lam(c15Stmts(inc)))))}
+	call := func(n string) c15Form { return &c15Cmd{HeadExpr: c15V(n)} }
+	alpha := []struct {
+		name string
+		f    c15Form
+	}{
+		{"mk1", asg("var", []string{"g1", "a1"}, &c15Cap{c15Stmts(c15C("mk"))})},
+		{"mk2", asg("var", []string{"g2", "a2"}, &c15Cap{c15Stmts(c15C("mk"))})},
+		{"g1", call("g1")}, {"a1", call("a1")}, {"g2", call("g2")}, {"a2", call("a2")},
+		{"alias", asg("set", []string{"g2", "a2"}, c15V("g1"), c15V("a1"))},
+		{"loop-a1", &c15For{Var: "i", Cont: &c15List{c15Strs("1", "2")}, Body: c15Stmts(call("a1"))}},
+		{"each-g1", c15P(c15Put("p", "q"), c15C("each", c15Lam(c15Stmts(call("a1"), call("g1")), "v")))},
+	}
+	var counts []int
+	total, pow := 0, 1
+	for d := 1; d <= maxLen; d++ {
+		pow *= len(alpha)
+		counts = append(counts, pow)
+		total += pow
+	}
+	return c15Family{Name: "closures", N: total, Build: func(i int) (*c15Chunk, string) {
+		d := 1
+		for i >= counts[d-1] {
+			i -= counts[d-1]
+			d++
+		}
+		fs := []c15Form{mk}
+		shape := ""
+		var names []string
+		for j := 0; j < d; j++ {
+			k := i % len(alpha)
+			i /= len(alpha)
+			fs = append(fs, alpha[k].f)
+			names = append(names, alpha[k].name)
+		}
+		for j, n := range names {
+			if j < 3 {
+				shape += n + ";"
+			}
+		}
+		return c15Stmts(fs...), shape + fmt.Sprint(d)
+	}}
+}
+
+// ---- family 11: order ----
+
+func c15FamOrder(c *vk.Ctx) c15Family {
+	capt := func(head string, args ...c15Expr) c15Expr { return &c15Cap{c15Stmts(c15C(head, args...))} }
+	pool := []struct {
+		name string
+		e    c15Expr
+	}{
+		{"b", c15S("b")}, {"a", c15S("a")}, {"10", c15S("10")}, {"9", c15S("9")},
+		{"n10", capt("num", c15S("10"))}, {"n9", capt("num", c15S("9"))}, {"n9.5", capt("num", c15S("9.5"))},
+		{"[a b]", &c15List{c15Strs("a", "b")}}, {"[a]", &c15List{c15Strs("a")}}, {"[b]", &c15List{c15Strs("b")}},
+		{"true", c15V("true")}, {"false", c15V("false")}, {"map", &c15Map{c15Strs("k"), c15Strs("v")}}, {"nil", c15V("nil")},
+		{"[n9]", &c15List{[]c15Expr{capt("num", c15S("9"))}}}, {"[9]", &c15List{c15Strs("9")}},
+	}
+	variants := []string{"plain", "reverse", "key-count", "arg", "reverse-false"}
+	np := len(pool)
+	maxN := 3
+	var counts []int
+	total, pow := 1, 1
+	counts = append(counts, 1)
+	for d := 1; d <= maxN; d++ {
+		pow *= np
+		counts = append(counts, pow)
+		total += pow
+	}
+	return c15Family{Name: "order", N: total * len(variants), Build: func(i int) (*c15Chunk, string) {
+		v := variants[i%len(variants)]
+		i /= len(variants)
+		d := 0
+		for i >= counts[d] {
+			i -= counts[d]
+			d++
+		}
+		var es []c15Expr
+		shape := v
+		for j := 0; j < d; j++ {
+			k := i % np
+			i /= np
+			es = append(es, pool[k].e)
+			if j < 2 {
+				shape += " " + pool[k].name
+			}
+		}
+		shape += fmt.Sprint(" n", d)
+		cmd := &c15Cmd{Head: "order"}
+		switch v {
+		case "reverse":
+			cmd.OptNames, cmd.OptVals = []string{"reverse"}, []c15Expr{nil}
+		case "reverse-false":
+			cmd.OptNames, cmd.OptVals = []string{"reverse"}, []c15Expr{c15V("false")}
+		case "key-count":
+			cmd.OptNames, cmd.OptVals = []string{"key"}, []c15Expr{c15Lam(c15Stmts(c15C("count", c15V("v"))), "v")}
+		}
+		var f c15Form
+		if v == "arg" {
+			cmd.Args = []c15Expr{&c15List{es}}
+			f = cmd
+		} else {
+			f = c15P(c15C("put", es...), cmd)
+		}
+		return c15Stmts(f, c15Put("e")), shape
+	}}
 }
